@@ -46,7 +46,7 @@ type cliFileSpec struct {
 
 func cliContent(cls, tag string) string {
 	switch cls {
-	case "xml", "noext", "linkxml", "stdinxml":
+	case "xml", "noext", "linkxml", "stdinxml", "svg":
 		return `<?xml version="1.0"?>` + "\n" + `<r><a>` + tag + `-1</a><b><a x="1" n:y="2" xmlns:n="urn:n">` + tag + `-2<!--c ` + tag + `--><?p d?><i>x &amp; y</i></a></b><n:a xmlns:n="urn:n">` + tag + `-3</n:a></r>`
 	case "xmlbad":
 		return `<r><a>` + tag + `</r>`
